@@ -104,9 +104,13 @@ RelevantSufficient == (ph = 1 /\ Part = "known") =>
 (* come into play: exactly one allowed answer per class                       *)
 KnownIsDeterministic == (ph = 1 /\ Part = "known") =>
     Cardinality(MaxPats(cl, cs, cr)) = 1 /\ Cardinality(MinPats(cl, cs, cr)) = 1
+(* the rule subsets that CfgsFor keeps are the only ones that matter           *)
+CfgReductionSound == (ph = 1 /\ Part # "dir" /\ (Part = "known" \/ cr \in {None, OtherR, "US", "001"})) =>
+    /\ AllowedMax(T, cl, cs, cr) = AllowedMaxFull(T, cl, cs, cr)
+    /\ AllowedMin(T, cl, cs, cr) = AllowedMinFull(T, cl, cs, cr)
 (* C07 / C08 hold for the representative of every class                       *)
 ClassLaws == (ph = 1 /\ Part # "dir") =>
-    /\ LawsMax(T, cl, cs, cr, FALSE) /\ LawsMin(T, cl, cs, cr, FALSE) /\ NeverLonger(T, cl, cs, cr, FALSE)
+    /\ LawsMax(T, cl, cs, cr, FbNone) /\ LawsMin(T, cl, cs, cr, FbNone) /\ NeverLonger(T, cl, cs, cr, FbNone)
 (* direction of a class does not depend on the representative or the region   *)
 DirUniform == (ph = 1 /\ Part = "dir") =>
     \A on \in BOOLEAN :
